@@ -1,0 +1,10 @@
+//go:build verif
+
+package telnet
+
+import "net"
+
+// VerifListener adds the telnet login to an arbitrary net.Listener, so that the
+// verification harness can run Accept over in-memory connections whose read
+// segmentation it controls exactly.
+func VerifListener(ln net.Listener) net.Listener { return listener{ln} }
